@@ -109,6 +109,9 @@ def run : Runner
         else (if Bytes.ofTok reenc == some s then "ok" else "violated:canonical-legacy")
       | _ => "ok"
     pure { model := decObs (DecodeAddress X s net), prop }
+  | "conc", _, impl =>
+    -- address construction/encoding are functions of their arguments: concurrent use must agree with sequential use
+    pure { model := "ok", prop := if impl == "ok" then "ok" else "violated:results depend on concurrent use " ++ impl }
   | "pm", [_, v], _ => do
     let v ← bytes? v
     pure { model := toString (CashAddr.polyMod v) }
